@@ -67,6 +67,36 @@ func (P) Exec(line string) string {
 			toks = strings.Split(f[8], ",")
 		}
 		return runHS(c, toks)
+	case "leakhunt":
+		// C18 leakhunt <attempts> <seed>: backlog-heavy disconnect races on real
+		// peers; counts runs after which a peer goroutine was still alive.
+		if len(f) != 4 {
+			return "bad-op"
+		}
+		n, err1 := strconv.Atoi(f[2])
+		seed, err2 := strconv.ParseUint(f[3], 10, 64)
+		if err1 != nil || err2 != nil || n < 0 || n > 100000 {
+			return "bad-op"
+		}
+		leaks := 0
+		r := core.NewRand(seed)
+		for i := 0; i < n; i++ {
+			c := pipeCfg{nProd: 1 + r.Intn(3), nMsg: 20 + r.Intn(20), seed: r.U64(), mode: []int{0, 0, 2}[r.Intn(3)]}
+			c.fireAt = r.Intn(c.nProd*c.nMsg/2 + 1)
+			if runPipe(c).leak {
+				leaks++
+			}
+		}
+		return fmt.Sprintf("leaks=%d", leaks)
+	case "trace":
+		// The line carries what a real run of the pipeline scenario showed
+		// (recorded by Generate, or by an earlier run when replaying); the
+		// implementation's side of the comparison is the fact that it was
+		// observed. The Lean model answers "ok" iff some schedule explains it.
+		if len(f) != 11 {
+			return "bad-op"
+		}
+		return "ok"
 	}
 	return "bad-op"
 }
@@ -230,5 +260,28 @@ func (P) Generate(g *core.Gen) {
 		}
 		toks = finishScript(toks, ours)
 		g.Case(class, len(toks) > 1, hsLine(in, ours, allowSelf, reg, local, rej, toks))
+	}
+	// 3. pipeline scenarios: run on the real peer now; the observed trace goes on the line.
+	for i, n := 0, g.N(400, 6000); i < n; i++ {
+		c := pipeCfg{nProd: 1 + r.Intn(8), nMsg: 1 + r.Intn(12), seed: r.U64(), invCallers: r.Intn(3)}
+		switch x := r.Intn(20); {
+		case x < 9:
+			c.mode = 0
+		case x < 14:
+			c.mode = 1
+		case x < 17:
+			c.mode = 2
+		case x < 18:
+			c.mode = 3
+		default:
+			c.mode = 4
+		}
+		if r.Chance(1, 10) {
+			c.nProd, c.nMsg = 8+r.Intn(9), 10+r.Intn(20)
+		}
+		c.fireAt = r.Intn(c.nProd*c.nMsg + 1)
+		o := runPipe(c)
+		class := fmt.Sprintf("pipe-mode%d", c.mode)
+		g.Case(class, len(o.written) > 0 || len(o.before) > 0, pipeLine(c, o))
 	}
 }
